@@ -233,6 +233,7 @@ PROPS = {
         subs=[
             rapid("visits", "TestC11Visits", 2000, 20000),
             rapid("all-paths", "TestC11AllPaths", 30, 400),
+            rapid("titles-as-reported", "TestC11Titles", 600, 3000, shards=dict(quick=1, thorough=2)),
         ],
     ),
     "C12": dict(
